@@ -31,6 +31,9 @@ chk("C04", E1, "exploration",
 chk("C06", E1, "exploration",
     "Seeded membership maps over 16-bit ids (identity, injective non-identity, several nodes per party with any replica participating, two replicas of one party selected) x KeyGen/Sign x schedules; the scripted backend records Init/OnMsg arguments, the simulator records every wire message: Init = sorted party ids of the participants, OnMsg.from = party of the authenticated sender, each p2p message goes to exactly the participating node of the addressee, duplicate party => every call returns an error by its deadline.",
     "deterministic simulation + argument/destination monitor on recorded history", "DESIGN.md §4 C06")
+chk("C11", E1, "fault_enumeration",
+    "Crash points and single lost messages are enumerated on the canonical schedule for 8 base sessions (scripted, BLS and PS key generation, scripted signing; loud and silent): for every peer P and every k, P goes silent after its k-th outgoing message (k=0: never shows up), and every single message is withheld in turn; further runs draw crash point / withheld message / cancellation step / unusable stored data with a never-expiring context under seeded schedules (n=2..4, thorough ..5). Oracle: every live call returns (error or success) no later than its deadline / cancellation + 1 s of simulated time, no panic anywhere in the process for a further 5 simulated minutes (background goroutines included; a dying worker process is captured and replayed).",
+    "deterministic simulation with enumerated crash points / withheld messages + seeded fault injection; return-by-deadline oracle on the simulated clock", "DESIGN.md §4 C11")
 chk("C13", E1, "exploration",
     "Runs 0..454 enumerate all pairs and triples of 14 boundary identifiers (byte boundaries, 0, 0xFFFF); further runs sample the 16-bit range. Each case is a fault-free session (sync + KeyGen and/or Sign, scripted backend with rounds 0..127, or BLS with serialisation round trip and sign/verify) run twice under the same seed: with the drawn ids and with the order-isomorphic ids 1..n; outcome, hand-off counts and totality must agree.",
     "deterministic simulation, differential twin run (large ids vs order-isomorphic small ids)", "DESIGN.md §4 C13")
